@@ -50,6 +50,8 @@ type c20Meta struct {
 	Cycle    bool                `json:"cross_file_cycle"`
 	// CrossPkgCombo / CrossPkgAnyOf: an allOf/anyOf (resp. anyOf) branch $ref crosses packages
 	CrossPkgCombo bool `json:"crosspackage_combinator_ref"`
+	// RespelledOutput: two ids are mapped to one output file under different spellings (out/x.go, ./out/x.go)
+	RespelledOutput bool `json:"respelled_output,omitempty"`
 	// RefCompositions: number of allOf/anyOf nodes with a $ref branch in the world's documents (two or more: a
 	// merged target may be reached by several compositions - known finding KF-C20-5)
 	RefCompositions int  `json:"ref_compositions"`
@@ -278,8 +280,28 @@ func (p c20) Gen(t *rapid.T, env *Env) (*Case, []*Out) {
 		}
 		w = &cp
 	}
+	respelled := false
+	if !clash3 && rapid.IntRange(0, 11).Draw(t, "respelloutput") == 0 {
+		// two ids share an output file, but the command line spells it differently for each
+		seen := map[string]bool{}
+		cp := *w
+		cp.Opts.SchemaOut = nil
+		for _, pr := range w.Opts.SchemaOut {
+			v := pr.V
+			if v != "-" && !filepath.IsAbs(v) && !strings.HasPrefix(v, "outlnk/") && !strings.HasPrefix(v, RootPH) && seen[v] && !respelled {
+				v = rapid.SampledFrom([]string{"./" + v, strings.Replace(v, "/", "//", 1), strings.Replace(v, "/", "/./", 1)}).Draw(t, "respelling")
+				respelled = true
+			}
+			seen[pr.V] = true
+			cp.Opts.SchemaOut = append(cp.Opts.SchemaOut, Pair{pr.K, v})
+		}
+		if respelled {
+			w = &cp
+		}
+	}
 	env.Stats.NoteFeat(w.Feat)
 	meta := buildC20Meta(w)
+	meta.RespelledOutput = respelled
 	meta.Clash3 = clash3
 	c := &Case{Prop: "C20"}
 	var outs []*Out
@@ -396,10 +418,14 @@ func (p c20) Eval(c *Case, outs []*Out) []Discrepancy {
 	}
 	// the only world feature kept in signatures: do file references form a cycle?
 	feat := func(tags []string, args []string) string {
+		f := "acyclic"
 		if meta.Cycle {
-			return "cross-file-cycle"
+			f = "cross-file-cycle"
 		}
-		return "acyclic"
+		if meta.RespelledOutput {
+			f += ":one-output-under-two-spellings" // known finding KF-C20-6
+		}
+		return f
 	}
 	for i := range outs {
 		o := outs[i]
